@@ -1,0 +1,51 @@
+package otto
+
+// isStringNumericLiteral reports whether value (already trimmed, not empty) is a
+// StrNumericLiteral of ECMA 262 9.3.1: an unsigned HexIntegerLiteral, or a
+// StrDecimalLiteral, i.e. an optional sign followed by "Infinity" or by decimal
+// digits with an optional fraction and an optional exponent.
+func isStringNumericLiteral(value string) bool {
+	if len(value) >= 2 && value[0] == '0' && (value[1] == 'x' || value[1] == 'X') {
+		if len(value) == 2 {
+			return false
+		}
+		for _, chr := range value[2:] {
+			if digitValue(chr) >= 16 {
+				return false
+			}
+		}
+		return true
+	}
+	if value[0] == '+' || value[0] == '-' {
+		value = value[1:]
+	}
+	if value == "Infinity" {
+		return true
+	}
+	digits := func() int {
+		count := 0
+		for value != "" && value[0] >= '0' && value[0] <= '9' {
+			value = value[1:]
+			count++
+		}
+		return count
+	}
+	count := digits()
+	if value != "" && value[0] == '.' {
+		value = value[1:]
+		count += digits()
+	}
+	if count == 0 {
+		return false
+	}
+	if value != "" && (value[0] == 'e' || value[0] == 'E') {
+		value = value[1:]
+		if value != "" && (value[0] == '+' || value[0] == '-') {
+			value = value[1:]
+		}
+		if digits() == 0 {
+			return false
+		}
+	}
+	return value == ""
+}
